@@ -14,6 +14,10 @@ TRUSTED_BASE = [
 ]
 
 PLAN = {
+    "C08": {
+        "level": "exploration",
+        "bounded": ["bounded.c08"],
+    },
     "C13": {
         "level": "exploration",
         "bounded": ["bounded.c13"],
